@@ -663,6 +663,9 @@ struct TupCase {
     factor: F,
     lat: Sexa,
     lon: Sexa,
+    /// a second left operand for the arithmetic checks, independent of the write history
+    #[serde(default)]
+    a2: Vec<F>,
 }
 
 const TUP_KINDS: usize = 8;
@@ -756,25 +759,63 @@ fn tuple_math<T: TK>(t: &T, m: &[f64], o: &T, mb: &[f64], factor: f64, rec: &mut
                 "{nm}: CoordinateTuple::scale({factor:?}) element {k} = {:?}, expected {:?}; state {}", s.nth(k), ex, show(m));
         }
     }
-    let sum_abs: f64 = (0..T::DIM).map(|k| (m[k] * mb[k]).abs()).sum();
+    // dot: sum of the element products; with non-finite products only what every summation order yields
+    let prods: Vec<f64> = (0..T::DIM).map(|k| m[k] * mb[k]).collect();
+    let sum_abs: f64 = prods.iter().map(|p| p.abs()).sum();
+    let g = CoordinateTuple::dot(t, *o);
     if sum_abs.is_finite() {
-        let ex: f64 = (0..T::DIM).map(|k| m[k] * mb[k]).sum();
-        let g = CoordinateTuple::dot(t, *o);
+        let ex: f64 = prods.iter().sum();
         vensure!((g - ex).abs() <= 16.0 * EPS * sum_abs + f64::MIN_POSITIVE, format!("tuple-{nm}:dot(trait)"),
             "{nm}: CoordinateTuple::dot = {g:?}, sum of element products = {ex:?}; a = {}, b = {}", show(m), show(mb));
         rec.count("dot_compared", 1);
+    } else if prods.iter().any(|p| p.is_nan()) {
+        vensure!(g.is_nan(), format!("tuple-{nm}:dot(trait)-nan"), "{nm}: CoordinateTuple::dot = {g:?} although an element product is NaN; a = {}, b = {}", show(m), show(mb));
+        rec.count("dot_compared_nonfinite", 1);
+    } else if prods.iter().all(|p| p.is_finite() || *p > 0.0) || prods.iter().all(|p| p.is_finite() || *p < 0.0) {
+        // infinite products of one sign only (an overflowing finite sum is left alone)
+        // the finite products must not be able to overflow to the opposite infinity on their own
+        let finite_abs: f64 = prods.iter().filter(|p| p.is_finite()).map(|p| p.abs()).sum();
+        if prods.iter().any(|p| p.is_infinite()) && finite_abs.is_finite() {
+            let ex = if prods.iter().any(|p| *p == f64::INFINITY) { f64::INFINITY } else { f64::NEG_INFINITY };
+            vensure!(g == ex, format!("tuple-{nm}:dot(trait)-inf"), "{nm}: CoordinateTuple::dot = {g:?}, expected {ex:?}; a = {}, b = {}", show(m), show(mb));
+            rec.count("dot_compared_nonfinite", 1);
+        }
     }
-    // hypot2 / hypot3
-    let tame = |v: &[f64]| v.iter().all(|x| x.is_finite() && x.abs() < 1e150);
-    if T::DIM >= 2 && tame(&m[..2]) && tame(&mb[..2]) {
-        let ex = (m[0] - mb[0]).hypot(m[1] - mb[1]);
-        let g = t.hypot2(o);
-        vensure!(close_rel(g, ex, 8.0 * EPS), format!("tuple-{nm}:hypot2"), "{nm}: hypot2 = {g:?}, expected {ex:?}; a = {}, b = {}", show(m), show(mb));
+    // hypot2 / hypot3: Euclidean norm of the element differences; a missing dimension makes the distance NaN
+    let diff = |k: usize| m[k] - mb[k];
+    let g2 = t.hypot2(o);
+    if T::DIM >= 2 {
+        match ref_norm(&[diff(0), diff(1)]) {
+            Some(ex) => {
+                vensure!(close_rel(g2, ex, 8.0 * EPS), format!("tuple-{nm}:hypot2"), "{nm}: hypot2 = {g2:?}, expected {ex:?}; a = {}, b = {}", show(m), show(mb));
+                rec.count(if ex.is_finite() { "hypot_compared_finite" } else { "hypot_compared_nonfinite" }, 1);
+            }
+            None => rec.count("hypot_inf_and_nan_difference_unspecified", 1),
+        }
+    } else if diff(0).is_infinite() {
+        // 1-D tuple: IEEE hypot(inf, NaN) = inf; neither documented nor guarded: not asserted
+        rec.count("hypot2_on_1d_tuple_with_infinite_difference_unspecified", 1);
+    } else {
+        vensure!(g2.is_nan(), format!("tuple-{nm}:hypot2-missing-dimension"), "{nm}: hypot2 = {g2:?} on a tuple without a second dimension (expected NaN); a = {}, b = {}", show(m), show(mb));
     }
-    if T::DIM >= 3 && tame(&m[..3]) && tame(&mb[..3]) {
-        let ex = (m[0] - mb[0]).hypot(m[1] - mb[1]).hypot(m[2] - mb[2]);
-        let g = t.hypot3(o);
-        vensure!(close_rel(g, ex, 8.0 * EPS), format!("tuple-{nm}:hypot3"), "{nm}: hypot3 = {g:?}, expected {ex:?}; a = {}, b = {}", show(m), show(mb));
+    let g3 = t.hypot3(o);
+    if T::DIM >= 3 {
+        match ref_norm(&[diff(0), diff(1), diff(2)]) {
+            Some(ex) => {
+                vensure!(close_rel(g3, ex, 8.0 * EPS), format!("tuple-{nm}:hypot3"), "{nm}: hypot3 = {g3:?}, expected {ex:?}; a = {}, b = {}", show(m), show(mb));
+                rec.count(if ex.is_finite() { "hypot_compared_finite" } else { "hypot_compared_nonfinite" }, 1);
+            }
+            None => rec.count("hypot_inf_and_nan_difference_unspecified", 1),
+        }
+    } else {
+        // the third dimension does not exist: NaN whatever the other elements hold (guard in the default method)
+        vensure!(g3.is_nan(), format!("tuple-{nm}:hypot3-missing-dimension"),
+            "{nm}: hypot3 = {g3:?} on a tuple of dimension {} (a 3-D distance needs a third element: expected NaN); a = {}, b = {}", T::DIM, show(m), show(mb));
+        let infinite = (0..T::DIM).any(|k| diff(k).is_infinite());
+        rec.count(if infinite { "hypot3_missing_dimension_infinite_difference" } else { "hypot3_missing_dimension_other" }, 1);
+        if infinite {
+            rec.class(&format!("hypot3-missing-dim-infinite-diff:{nm}"));
+        }
     }
     Ok(())
 }
@@ -861,11 +902,35 @@ fn check_tuple_generic<T: TK>(c: &TupCase, rec: &mut Rec) -> Result<(Vec<f64>, V
     let mb: Vec<f64> = (0..T::DIM).map(|k| if k < bv.len() { r(bv[k]) } else { 0.0 }).collect();
     verify_tuple(&o, &mb, "update", "new(0) | update(b)")?;
     tuple_math(&t, &m, &o, &mb, c.factor.0, rec)?;
+    if !c.a2.is_empty() {
+        let av: Vec<f64> = c.a2.iter().map(|x| x.0).collect();
+        let mut t2 = T::new(0.0);
+        t2.update(&av);
+        let m2: Vec<f64> = (0..T::DIM).map(|k| if k < av.len() { r(av[k]) } else { 0.0 }).collect();
+        verify_tuple(&t2, &m2, "update", "new(0) | update(a2)")?;
+        tuple_math(&t2, &m2, &o, &mb, c.factor.0, rec)?;
+        tuple_math(&o, &mb, &t2, &m2, c.factor.0, rec)?;
+    }
     rec.class(nm);
     // every case reads nth(n) for n up to 7 >= dim; distinct by kind and history
     let _ = beyond;
     rec.nontrivial(&(c.kind, hist));
     Ok((m, mb))
+}
+
+/// Euclidean norm of element differences under IEEE rules; None where an infinite and a NaN
+/// difference meet (nested hypot gives +inf, a sum of squares NaN: not specified)
+fn ref_norm(d: &[f64]) -> Option<f64> {
+    let (nan, inf) = (d.iter().any(|x| x.is_nan()), d.iter().any(|x| x.is_infinite()));
+    // norm of the defined differences: may overflow although every difference is finite
+    let partial = d.iter().filter(|x| !x.is_nan()).fold(0.0f64, |a, x| a.hypot(*x));
+    match (nan, inf) {
+        (true, true) => None,
+        (true, false) if partial.is_infinite() => None,
+        (true, false) => Some(f64::NAN),
+        (false, true) => Some(f64::INFINITY),
+        _ => Some(d.iter().fold(0.0f64, |a, x| a.hypot(*x))),
+    }
 }
 
 /// |got - exp| <= tol element-wise (NaN = NaN, equal infinities accepted)
@@ -1082,28 +1147,47 @@ fn sexa_strategy() -> impl Strategy<Value = Sexa> {
     (any::<bool>(), d, m, s).prop_map(|(neg, d, m, s)| Sexa { neg, d, m, s: F(s) })
 }
 
+/// all f64 classes plus magnitudes whose differences overflow and values around / beyond f32::MAX
+fn tup_f64() -> impl Strategy<Value = F> {
+    prop_oneof![
+        12 => any_f64_class(),
+        1 => Just(F(-f64::MAX)),
+        1 => Just(F(f64::MAX)),
+        1 => Just(F(1.0e308)),
+        1 => Just(F(-1.0e308)),
+        1 => Just(F(f64::INFINITY)),
+        1 => Just(F(f64::NEG_INFINITY)),
+        1 => Just(F(3.4028234663852886e38)), // f32::MAX
+        1 => Just(F(-3.4028234663852886e38)),
+        1 => Just(F(3.5e38)), // beyond f32::MAX: a Coor32 stores +inf
+        1 => Just(F(-3.5e38)),
+        1 => Just(F(1.0e39)),
+    ]
+}
+
 fn tup_op_strategy() -> impl Strategy<Value = TupOp> {
     prop_oneof![
-        4 => (0u8..8, any_f64_class()).prop_map(|(n, v)| TupOp::SetNth(n, v)),
-        2 => (any_f64_class(), any_f64_class()).prop_map(|(x, y)| TupOp::SetXy(x, y)),
-        2 => (any_f64_class(), any_f64_class(), any_f64_class()).prop_map(|(x, y, z)| TupOp::SetXyz(x, y, z)),
-        2 => any_p4_class().prop_map(TupOp::SetXyzt),
-        3 => prop::collection::vec(any_f64_class(), 0..8).prop_map(TupOp::Update),
-        1 => any_f64_class().prop_map(TupOp::Fill),
+        4 => (0u8..8, tup_f64()).prop_map(|(n, v)| TupOp::SetNth(n, v)),
+        2 => (tup_f64(), tup_f64()).prop_map(|(x, y)| TupOp::SetXy(x, y)),
+        2 => (tup_f64(), tup_f64(), tup_f64()).prop_map(|(x, y, z)| TupOp::SetXyz(x, y, z)),
+        2 => [tup_f64(), tup_f64(), tup_f64(), tup_f64()].prop_map(TupOp::SetXyzt),
+        3 => prop::collection::vec(tup_f64(), 0..8).prop_map(TupOp::Update),
+        1 => tup_f64().prop_map(TupOp::Fill),
     ]
 }
 
 fn tup_case_strategy() -> impl Strategy<Value = TupCase> {
     (
         0u8..TUP_KINDS as u8,
-        any_f64_class(),
+        tup_f64(),
         prop::collection::vec(tup_op_strategy(), 0..7),
-        prop::collection::vec(any_f64_class(), 5..=5),
-        prop_oneof![4 => (-1.0e3f64..1.0e3).prop_map(F), 1 => any_f64_class()],
+        prop::collection::vec(tup_f64(), 5..=5),
+        prop_oneof![4 => (-1.0e3f64..1.0e3).prop_map(F), 1 => tup_f64()],
         sexa_strategy(),
         sexa_strategy(),
+        prop::collection::vec(tup_f64(), 5..=5),
     )
-        .prop_map(|(kind, fill, ops, b, factor, lat, lon)| TupCase { kind, fill, ops, b, factor, lat, lon })
+        .prop_map(|(kind, fill, ops, b, factor, lat, lon, a2)| TupCase { kind, fill, ops, b, factor, lat, lon, a2 })
 }
 
 
